@@ -191,11 +191,13 @@ class HasAccessibles(HasProperties):
                                 if c(self, value):
                                     break
                             if wfunc:
-                                new_value = wfunc(self, new_value)
+                                validated = new_value
+                                new_value = wfunc(self, validated)
                                 self.log.debug('write_%s(%r) returned %r', pname, value, new_value)
                                 if new_value is Done:  # TODO: to be removed when all code using Done is updated
                                     return getattr(self, pname)
-                                new_value = value if new_value is None else validate(new_value)
+                                # nothing returned: take the validated value, not the raw argument
+                                new_value = validated if new_value is None else validate(new_value)
                         except SECoPError as e:
                             e.raising_methods.append(f'{self.name}.write_{pname}')
                             raise
